@@ -7,7 +7,7 @@ From AGH Require Import Proofs.AuthGlob Gen.Routes.
 From stdpp Require Import gmap.
 Local Open Scope Z_scope.
 
-Definition stable := list (N * (bytes * N)).     (* token id, user, expiry *)
+Definition stable := list (bytes * (bytes * N)).     (* key of Auth.sessions (cookie string), user, expiry *)
 
 Inductive chain_sel :=
   | KRegister (m : bytes)            (* registered through the real httpRegister *)
@@ -32,11 +32,12 @@ Inductive case :=
      source; the two start-up flags of [e] are replaced by its verdict. *)
   | CBoot (b : boot_in) (obs_auth obs_err : bool) (probe : option (env * stable * chain_sel * request * obs)).
 
+(** The map in memory only: the bucket is the business of C12 (Run/C12.v). *)
 Definition mk_sess (t : stable) : sstate :=
-  let m := list_to_map (map (fun '(k, (u, e)) => (k, {| s_user := u; s_expire := e |})) t) : gmap N sess in
-  {| ss_mem := m; ss_disk := m |}.
+  let m := list_to_map (map (fun '(k, (u, e)) => (k, {| s_user := u; s_expire := e |})) t) : gmap bytes sess in
+  {| ss_mem := m; ss_disk := ∅ |}.
 
-Definition stab_ok (m : gmap N sess) (o : stable) : bool :=
+Definition stab_ok (m : gmap bytes sess) (o : stable) : bool :=
   (Z.of_nat (length o) =? Z.of_nat (size m)) &&
   forallb (fun '(k, (u, e)) =>
     match m !! k with
@@ -56,7 +57,7 @@ Definition loc_class (l : bytes) : Z :=
   else if eqb_bytes l [] then 3
   else if eqb_bytes l str_https then 4 else 5.
 
-Definition run_probe (e : env) (sess : stable) (k : chain_sel) (r : request) : bool * Z * Z * gmap N Session.sess :=
+Definition run_probe (e : env) (sess : stable) (k : chain_sel) (r : request) : bool * Z * Z * gmap bytes Session.sess :=
   let w := {| w_app := false; w_sess := mk_sess sess |} in
   let '(w', a) := apply_chain (chain_of_sel k) probe e w r in
   let '(st, loc) := match a with
